@@ -247,6 +247,111 @@ theorem input_allWnd_post (k : Kcp) (data : Bytes) (regular ackNoDelay : Bool) (
       · rename_i h2; rw [if_neg h2] at hp
         exact inputFin_allWnd_post _ _ _ _ hp
 
+/-! ### reading the segments back, the way `Input` walks a datagram -/
+
+theorem encodeHdr_length (conv : U32) (cmd frg : BitVec 8) (wnd : BitVec 16) (ts sn una : U32) (len : Nat) :
+    (encodeHdr conv cmd frg wnd ts sn una len).length = IKCP_OVERHEAD := by
+  unfold encodeHdr le32 le16; rfl
+
+theorem rd16_hdr (conv : U32) (cmd frg : BitVec 8) (wnd : BitVec 16) (ts sn una : U32) (len : Nat) (rest : Bytes) :
+    rd16 (encodeHdr conv cmd frg wnd ts sn una len ++ rest) 6 = wnd := by
+  unfold encodeHdr le32 le16 rd16 byteAt
+  simp only [List.cons_append, List.nil_append, List.getD_cons_succ, List.getD_cons_zero]
+  apply BitVec.eq_of_toNat_eq
+  simp only [BitVec.toNat_ofNat, UInt8.toNat_ofNat']
+  have := wnd.isLt
+  omega
+
+theorem rd32_hdr_len (conv : U32) (cmd frg : BitVec 8) (wnd : BitVec 16) (ts sn una : U32) (len : Nat) (rest : Bytes) :
+    rd32 (encodeHdr conv cmd frg wnd ts sn una len ++ rest) 20 = u32 len := by
+  unfold encodeHdr le32 le16 rd32 byteAt
+  simp only [List.cons_append, List.nil_append, List.getD_cons_succ, List.getD_cons_zero]
+  apply BitVec.eq_of_toNat_eq
+  simp only [BitVec.toNat_ofNat, UInt8.toNat_ofNat']
+  have := (u32 len).isLt
+  omega
+
+/-- the `wnd` fields a receiver reads from a datagram, walking it exactly as the parse loop of `Input`
+does: 24-byte header, `wnd` at offset 6, `len` at offset 20, skip `len` payload bytes -/
+def wndFields : Nat → Bytes → List (BitVec 16)
+  | 0, _ => []
+  | fuel + 1, data =>
+    if data.length < IKCP_OVERHEAD then []
+    else rd16 data 6 :: wndFields fuel ((data.drop IKCP_OVERHEAD).drop (rd32 data 20).toNat)
+
+theorem encSegs_cons (w : WireSeg) (l : List WireSeg) : encSegs (w :: l) = w.enc ++ encSegs l := by
+  unfold encSegs; simp
+
+theorem wndFields_enc (l : List WireSeg) (hl : ∀ w ∈ l, w.data.length < 2^32) (fuel : Nat) (hf : l.length ≤ fuel) :
+    wndFields fuel (encSegs l) = l.map (·.wnd) := by
+  induction l generalizing fuel with
+  | nil => cases fuel <;> simp [wndFields, encSegs, IKCP_OVERHEAD]
+  | cons w t ih =>
+    cases fuel with
+    | zero => simp at hf
+    | succ fuel =>
+      have hw := hl w (List.mem_cons_self ..)
+      rw [encSegs_cons]
+      unfold wndFields WireSeg.enc
+      rw [List.append_assoc, rd16_hdr, rd32_hdr_len]
+      have hlen : ¬ (encodeHdr w.conv w.cmd w.frg w.wnd w.ts w.sn w.una w.data.length ++ (w.data ++ encSegs t)).length < IKCP_OVERHEAD := by
+        rw [List.length_append, encodeHdr_length]; omega
+      rw [if_neg hlen]
+      have hd : List.drop IKCP_OVERHEAD (encodeHdr w.conv w.cmd w.frg w.wnd w.ts w.sn w.una w.data.length ++ (w.data ++ encSegs t))
+          = w.data ++ encSegs t := by
+        rw [← encodeHdr_length w.conv w.cmd w.frg w.wnd w.ts w.sn w.una w.data.length]
+        exact List.drop_left
+      have hu : (u32 w.data.length).toNat = w.data.length := by
+        unfold u32; rw [BitVec.toNat_ofNat]; exact Nat.mod_eq_of_lt hw
+      rw [hd, hu, List.drop_left]
+      rw [ih (fun x hx => hl x (List.mem_cons_of_mem _ hx)) fuel (by simpa using hf)]
+      rfl
+
+theorem encSegs_length_ge (l : List WireSeg) : IKCP_OVERHEAD * l.length ≤ (encSegs l).length := by
+  induction l with
+  | nil => simp
+  | cons w t ih =>
+    rw [encSegs_cons, List.length_append]
+    unfold WireSeg.enc
+    rw [List.length_append, encodeHdr_length, List.length_cons, Nat.mul_succ]
+    omega
+
+/-- with the fuel `Input` uses -/
+theorem wndFields_enc' (l : List WireSeg) (hl : ∀ w ∈ l, w.data.length < 2^32) :
+    wndFields ((encSegs l).length / IKCP_OVERHEAD + 1) (encSegs l) = l.map (·.wnd) := by
+  apply wndFields_enc l hl
+  have := encSegs_length_ge l
+  have h24 : 0 < IKCP_OVERHEAD := by decide
+  have : l.length ≤ (encSegs l).length / IKCP_OVERHEAD := by
+    rw [Nat.le_div_iff_mul_le h24]; rw [Nat.mul_comm]; exact this
+  omega
+
+theorem encSegs_data_le (l : List WireSeg) (w : WireSeg) (hw : w ∈ l) : w.data.length ≤ (encSegs l).length := by
+  induction l with
+  | nil => exact absurd hw List.not_mem_nil
+  | cons x t ih =>
+    rw [encSegs_cons, List.length_append]
+    rcases List.mem_cons.1 hw with rfl | h
+    · unfold WireSeg.enc; rw [List.length_append]; omega
+    · have := ih h; omega
+
+/-- every `wnd` field a receiver parses out of a datagram made of whole segments advertising `wnd` IS `wnd` -/
+theorem allWnd_fields {wnd : BitVec 16} {o : Bytes} (h : AllWnd wnd o) (hlen : o.length < 2^32) :
+    ∀ x ∈ wndFields (o.length / IKCP_OVERHEAD + 1) o, x = wnd := by
+  obtain ⟨l, e, hw⟩ := h
+  subst e
+  rw [wndFields_enc' l (fun w hm => Nat.lt_of_le_of_lt (encSegs_data_le l w hm) hlen)]
+  intro x hx
+  obtain ⟨w, hm, rfl⟩ := List.mem_map.1 hx
+  exact hw w hm
+
+/-- … and there are as many of them as segments -/
+theorem allWnd_count {o : Bytes} (l : List WireSeg) (e : o = encSegs l) (hlen : o.length < 2^32) :
+    (wndFields (o.length / IKCP_OVERHEAD + 1) o).length = l.length := by
+  subst e
+  rw [wndFields_enc' l (fun w hm => Nat.lt_of_le_of_lt (encSegs_data_le l w hm) hlen), List.length_map]
+
+
 /-! ### all operations -/
 
 /-- the datagrams an operation hands to `output` -/
